@@ -75,6 +75,20 @@ GEN_MODULES = {
         "Cv.C15g4.permutation_from_cycles_cycleFn",
         "Cv.C15g4.permutation_from_cycles_nat",
     ],
+    "C15g6": [
+        "Cv.C15g6.three_cycles_0ij_gen",
+        "Cv.C15g6.three_cycles_0ij_gen_neg_bind",
+        "Cv.C15g6.three_cycles_gen",
+        "Cv.C15g6.three_cycles_gen_neg",
+        "Cv.C15g6.increasing_k_cycles_gen",
+        "Cv.C15g6.increasing_k_cycles_gen_neg",
+        "Cv.C15g6.derangements_gen",
+        "Cv.C15g6.derangements_gen_neg",
+        "Cv.C15g6.permutations2_pairsNe1",
+        "Cv.C15g6.permutations3_triplesMinFirst",
+        "Cv.C15g6.combinations_range",
+        "Cv.C15g6.permutations_allPerms",
+    ],
     "C15g5": [
         "Cv.C15g5.rapaport_m2_gen",
         "Cv.C15g5.rapaport_m2_gen_neg",
@@ -595,6 +609,7 @@ GEN_FAMILIES = {
     "C15g3": ["lx", "lrx", "pancake", "coxeter", "cyclic_coxeter", "stars", "top_spin", "larx", "generalized_stars", "burnt_pancake", "cubic_pancake"],
     "C15g4": ["prefix_cycles", "consecutive_k_cycles", "down_cycles", "three_cycles_01i", "wrapped_k_cycles", "lsl_cycles"],
     "C15g5": ["rapaport_m2", "koltsov3", "rapaport_m1", "sheveleva2"],
+    "C15g6": ["three_cycles_0ij", "three_cycles", "increasing_k_cycles", "derangements"],
 }
 BIG_PARAMS = {
     "transposons": lambda: rng_n(9, 14),
